@@ -125,6 +125,9 @@ def oracle_c15(ctx, budget_s):
         ctx.count("C15.corpus")
         OD.check_sound(ctx, case, "IterateSATGen", 4, "C15")
         OD.check_sound(ctx, case, "RandomGen", 3, "C15")
+        if desc["block"]["k"] == "cross" and any(f["window"] and f["window"]["start"] is not None for f in desc["factors"]):
+            # explicit starts: a derivation clause that fires at the wrong trials silently removes valid sequences
+            OD.check_exhaust(ctx, case, "IterateSATGen", "C15")
         ctx.case(("C15", "corpus", json.dumps(desc, sort_keys=True)), True)
         if ctx.failures:
             return
@@ -1226,6 +1229,9 @@ def oracle_c22(ctx, budget_s):
             log3.append(dict(wv))
             return 0.0
         c3 = sp.ContinuousFactor("c3", distribution=sp.CustomDistribution(f3, [win]))
+        # a cumulative distribution: the running total of c2 within one sequence (restarts with every sequence and
+        # every resampling pass)
+        c4 = sp.ContinuousFactor("c4", distribution=sp.CustomDistribution(lambda y: y, [c2], cumulative=True))
         from sweetpea._internal.constraint import ContinuousConstraint
         cc = ContinuousConstraint([c1], lambda x: x >= thr)
         # further constraints, in varying order: an upper bound on the dependent factor and a two-argument one
@@ -1235,7 +1241,7 @@ def oracle_c22(ctx, budget_s):
         ccs = rng.choice([[cc], [cc, cc2], [cc2, cc], [cc3, cc2, cc], [cc2, cc3, cc]])
         try:
             with D.contextlib.redirect_stdout(D.io.StringIO()):
-                blk = sp.CrossBlock(design + [c1, c2, c3], [built.factors[i] for i in b["crossing"]],
+                blk = sp.CrossBlock(design + [c1, c2, c3, c4], [built.factors[i] for i in b["crossing"]],
                                     [D.build_constraint(desc, c, built) for c in b["cs"]] + ccs, b["rcc"])
         except Exception:
             continue
@@ -1244,7 +1250,7 @@ def oracle_c22(ctx, budget_s):
         case.regs = OD.regions(desc, case.geo)
         strat = rng.choice(["IterateSATGen", "IterateSATGen", "RandomGen"]) if case.random_ok() else "IterateSATGen"
         try:
-            exps = O.synth(blk, 2, strat)
+            exps = O.synth(blk, 3, strat)
         except (Exception, O.CallTimeout) as e:
             if isinstance(e, Exception):
                 report(ctx, "exception", case, "synthesize_trials (%s) with continuous factors raised %s: %s" % (strat, type(e).__name__, str(e)[:100]),
@@ -1255,13 +1261,20 @@ def oracle_c22(ctx, budget_s):
         st = win.start
         for ei, e in enumerate(exps):
             bad = None
-            for k in ("c1", "c2", "c3"):
+            for k in ("c1", "c2", "c3", "c4"):
                 if k not in e or len(e[k]) != n:
                     bad = "continuous factor %s has %s values for %d trials" % (k, len(e.get(k, [])), n)
             if not bad and any(not (x >= thr) for x in e["c1"]):
                 bad = "ContinuousConstraint (x >= %s) is violated in the returned values %s" % (thr, e["c1"])
             if not bad and cc2 in ccs and any(not (y <= hi) for y in e["c2"]):
                 bad = "ContinuousConstraint (y <= %s), one of %d constraints, is violated in the returned values %s" % (hi, len(ccs), e["c2"])
+            if not bad:
+                run = 0.0
+                for i in range(n):
+                    run += e["c2"][i]
+                    if abs(e["c4"][i] - run) > 1e-9 * max(1.0, abs(run)):
+                        bad = "cumulative factor at trial %d of sequence %d is %r, the running total of its argument in this sequence is %r" % (i, ei, e["c4"][i], run)
+                        break
             if not bad:
                 ctx.count("C22.constraints.%d" % len(ccs))
             if not bad and ei == len(exps) - 1:
@@ -1284,7 +1297,7 @@ def oracle_c22(ctx, budget_s):
             if bad:
                 report(ctx, "continuous", case, bad, {"width": width, "stride": stride, "start": start})
                 break
-            disc = {k: v for k, v in e.items() if k not in ("c1", "c2", "c3")}
+            disc = {k: v for k, v in e.items() if k not in ("c1", "c2", "c3", "c4")}
             s, problems = D.exp_to_seq(desc, disc)
             v = O.lean_valid(ctx, desc, [s])[0]
             if v or problems:
